@@ -96,8 +96,10 @@ func handle(db *redka.DB) redcon.HandlerFunc {
 
 // handleMulti processes a batch of commands in a transaction.
 func handleMulti(conn redcon.Conn, state *connState, db *redka.DB) {
+	nRun := 0
 	err := db.Update(func(tx *redka.Tx) error {
 		for _, pcmd := range state.cmds {
+			nRun++
 			_, err := pcmd.Run(conn, redis.RedkaTx(tx))
 			if err != nil {
 				slog.Warn("run multi command", "client", conn.RemoteAddr(),
@@ -109,6 +111,12 @@ func handleMulti(conn redcon.Conn, state *connState, db *redka.DB) {
 	})
 	if err != nil {
 		slog.Warn("run multi", "client", conn.RemoteAddr(), "err", err)
+		// The reply to EXEC has been announced as an array with one element
+		// per queued command. The commands after the failed one were not run:
+		// answer for them too, so that the client receives a complete reply.
+		for i := nRun; i < len(state.cmds); i++ {
+			conn.WriteError(redis.ErrTxAborted.Error())
+		}
 	}
 }
 
